@@ -71,8 +71,30 @@ type transaction struct {
 	readOnly bool
 	b        *batch
 	l        *LevelDB
+	// snap is the view of the database a read transaction works on: taken when the
+	// transaction begins, released by Rollback. All reads of one read transaction, point
+	// reads and iterators alike, see the database as of one commit boundary. nil for write
+	// transactions (they hold the write lock and read the database itself).
+	snap *leveldb.Snapshot
 
 	cache map[db.BucketMeta]*levelBucket
+}
+
+// get reads one key for this transaction.
+func (tx *transaction) get(key []byte) ([]byte, error) {
+	if tx.snap != nil {
+		return tx.snap.Get(key, nil)
+	}
+	return tx.l.ldb.Get(key, nil)
+}
+
+// iter creates an iterator for this transaction. It must be released before the
+// transaction is rolled back.
+func (tx *transaction) iter(slice *util.Range) iterator.Iterator {
+	if tx.snap != nil {
+		return tx.snap.NewIterator(slice, nil)
+	}
+	return tx.l.ldb.NewIterator(slice, nil)
 }
 
 func newBatch() *batch {
@@ -163,9 +185,14 @@ func (l *LevelDB) BeginTx() (db.DBTransaction, error) {
 
 // BeginReadTx ...
 func (l *LevelDB) BeginReadTx() (db.ReadTransaction, error) {
+	snap, err := l.ldb.GetSnapshot()
+	if err != nil {
+		return nil, err
+	}
 	return &transaction{
 		readOnly: true,
 		l:        l,
+		snap:     snap,
 		cache:    make(map[db.BucketMeta]*levelBucket),
 	}, nil
 }
@@ -175,7 +202,7 @@ func (tx *transaction) TopLevelBucket(name string) db.Bucket {
 	bucketPath := joinBucketPath(topLevelBucketDepth, name)
 	key := []byte(joinBucketPath(bucketNameBucket, bucketPath))
 
-	_, err := tx.l.ldb.Get(key, nil)
+	_, err := tx.get(key)
 	if !tx.readOnly && err == leveldb.ErrNotFound {
 		if v, _ := tx.b.Get(key); v != nil {
 			err = nil
@@ -200,7 +227,7 @@ func (tx *transaction) BucketNames() (names []string, err error) {
 
 	prefix := []byte(joinBucketPath(bucketNameBucket, topLevelBucketDepth, ""))
 
-	iter := tx.l.ldb.NewIterator(util.BytesPrefix(prefix), nil)
+	iter := tx.iter(util.BytesPrefix(prefix))
 	defer iter.Release()
 
 	names = make([]string, 0)
@@ -260,7 +287,7 @@ func (tx *transaction) FetchBucket(meta db.BucketMeta) db.Bucket {
 		path := joinBucketPath(meta.Paths()...)
 		key := []byte(joinBucketPath(bucketNameBucket, path))
 
-		_, err := tx.l.ldb.Get(key, nil)
+		_, err := tx.get(key)
 		if !tx.readOnly && err == leveldb.ErrNotFound {
 			if v, _ := tx.b.Get(key); v != nil {
 				err = nil
@@ -296,7 +323,7 @@ func (tx *transaction) CreateTopLevelBucket(name string) (db.Bucket, error) {
 	bucketPath := joinBucketPath(topLevelBucketDepth, name)
 	key := []byte(joinBucketPath(bucketNameBucket, bucketPath))
 
-	_, err := tx.l.ldb.Get(key, nil)
+	_, err := tx.get(key)
 	if err == nil {
 		_, deleted := tx.b.Get(key)
 		if !deleted {
@@ -335,6 +362,11 @@ func (tx *transaction) DeleteTopLevelBucket(name string) error {
 func (tx *transaction) Rollback() error {
 	if !tx.readOnly {
 		tx.l.muTr.Unlock()
+		return nil
+	}
+	if tx.snap != nil {
+		tx.snap.Release()
+		tx.snap = nil
 	}
 	return nil
 }
@@ -342,7 +374,7 @@ func (tx *transaction) Rollback() error {
 // Commit ...
 func (tx *transaction) Commit() error {
 	if tx.readOnly {
-		return nil
+		return tx.Rollback()
 	}
 	err := tx.l.ldb.Write(tx.b.b, nil)
 	tx.l.muTr.Unlock()
@@ -370,7 +402,7 @@ func (b *levelBucket) NewBucket(name string) (db.Bucket, error) {
 	}
 
 	key := []byte(joinBucketPath(bucketNameBucket, sub.path))
-	_, err = b.tx.l.ldb.Get(key, nil) // value == name
+	_, err = b.tx.get(key) // value == name
 	if err == nil {
 		_, deleted := b.tx.b.Get(key)
 		if !deleted {
@@ -403,7 +435,7 @@ func (b *levelBucket) Bucket(name string) db.Bucket {
 
 	key := []byte(joinBucketPath(bucketNameBucket, sub.path))
 
-	_, err = b.tx.l.ldb.Get(key, nil)
+	_, err = b.tx.get(key)
 	if !b.tx.readOnly && err == leveldb.ErrNotFound {
 		if v, _ := b.tx.b.Get(key); v != nil {
 			err = nil
@@ -457,7 +489,7 @@ func (b *levelBucket) BucketNames() (names []string, err error) {
 	ss = append(ss, "")
 	prefix := []byte(joinBucketPath(bucketNameBucket, joinBucketPath(ss...)))
 
-	iter := b.tx.l.ldb.NewIterator(util.BytesPrefix(prefix), nil)
+	iter := b.tx.iter(util.BytesPrefix(prefix))
 	defer iter.Release()
 
 	names = make([]string, 0)
@@ -540,7 +572,7 @@ func deleteBucket(b *levelBucket) error {
 
 	// delete k/v in bucket
 	prefix := []byte(joinBucketPath(b.path, ""))
-	iter := b.tx.l.ldb.NewIterator(util.BytesPrefix(prefix), nil)
+	iter := b.tx.iter(util.BytesPrefix(prefix))
 	for iter.Next() {
 		_, deleted := b.tx.b.Get(iter.Key())
 		if deleted {
@@ -600,7 +632,7 @@ func (b *levelBucket) Get(key []byte) ([]byte, error) {
 		return nil, nil
 	}
 
-	value, err := b.tx.l.ldb.Get(key, nil)
+	value, err := b.tx.get(key)
 	if err != nil {
 		if err == leveldb.ErrNotFound {
 			if b.tx.readOnly {
@@ -644,7 +676,7 @@ func (b *levelBucket) Clear() error {
 	}
 	prefix := []byte(joinBucketPath(b.path, ""))
 
-	iter := b.tx.l.ldb.NewIterator(util.BytesPrefix(prefix), nil)
+	iter := b.tx.iter(util.BytesPrefix(prefix))
 	defer iter.Release()
 
 	for iter.Next() {
@@ -676,7 +708,7 @@ func (b *levelBucket) GetByPrefix(prefix []byte) ([]*db.Entry, error) {
 	entries := make([]*db.Entry, 0)
 	set := make(map[string]struct{})
 
-	iter := b.tx.l.ldb.NewIterator(util.BytesPrefix(innerPrefix), nil)
+	iter := b.tx.iter(util.BytesPrefix(innerPrefix))
 	defer iter.Release()
 
 	for iter.Next() {
@@ -885,10 +917,10 @@ func (b *levelBucket) NewIterator(slice *db.Range) db.Iterator {
 		b:       b,
 		slice:   slice,
 		iterEnd: false,
-		iter: b.tx.l.ldb.NewIterator(&util.Range{
+		iter: b.tx.iter(&util.Range{
 			Start: slice.Start,
 			Limit: slice.Limit,
-		}, nil),
+		}),
 	}
 	if !b.tx.readOnly {
 		it.batchIter = newBatchIterator(b.tx.b, slice.Start, slice.Limit)
